@@ -404,10 +404,13 @@ func checkMain(args []string) int {
 		if r.Status == "error" {
 			fmt.Printf("ENGINE-INCONCLUSIVE property=%s harness=%s: %s\n", prop, r.Name, r.Error)
 			exit = 2
-			continue
+			if len(r.Violations) == 0 {
+				continue
+			}
+			// counterexamples found before the exploration broke off are still concrete, replayable violations
 		}
 		// vacuity: every harness must reach at least one marker, and all markers listed in its name contract
-		if len(r.Reached) == 0 {
+		if len(r.Reached) == 0 && r.Status != "error" {
 			fmt.Printf("ENGINE-INCONCLUSIVE property=%s harness=%s: no Reach marker was reachable (vacuous harness)\n", prop, r.Name)
 			exit = 2
 		}
@@ -484,6 +487,9 @@ func checkMain(args []string) int {
 				exit = 2
 			}
 		}
+	}
+	if nvio > 0 {
+		exit = 1 // a replayed counterexample is definite even if another harness (or the rest of this one) was inconclusive
 	}
 	var fl []string
 	for f := range funcs {
